@@ -1,6 +1,7 @@
 package props
 
 import (
+	"fmt"
 	"strings"
 	"testing"
 
@@ -98,4 +99,64 @@ func TestC01_INP(t *testing.T) {
 	runProp(t, "C01_INP", genC01,
 		func(c c01Case) (bool, []string) { return classifyHist(c.Kind, c.Opts, c.Hist) },
 		runC01)
+}
+
+// ---- BIN: the same histories against the real binary (main.go wiring) ----
+
+type c01Bin struct {
+	Opts  gwOpts      `json:"gateway"`
+	Batch []c01Sub    `json:"batch"`
+}
+type c01Sub struct {
+	Kind string    `json:"transport"`
+	Hist []PktSpec `json:"history"`
+}
+
+func genC01Bin(t *rapid.T) c01Bin {
+	o := genC01Opts(t)
+	c := c01Bin{Opts: o}
+	n := rapid.IntRange(1, 12).Draw(t, "batch")
+	for i := 0; i < n; i++ {
+		c.Batch = append(c.Batch, c01Sub{Kind: genKind(t), Hist: genHistory(t, o)})
+	}
+	return c
+}
+
+func runC01Bin(c c01Bin) *Violation {
+	o := resolveHosts(c.Opts)
+	in, tgt, err := binFor(o, W().User)
+	if err != nil {
+		return viol("bin/start", "%v", err)
+	}
+	for i, s := range c.Batch {
+		units, evs := render(histCfg{Opts: o, Kind: s.Kind}, s.Hist, "127.0.0.1")
+		obs, _, v := runHistory(s.Kind, tgt, units)
+		if v == nil {
+			if f := model.CheckTunnel(model.Cfg{ServerCaps: o.serverCaps(), TokenAuth: o.TokenAuth}, evs, obs); f != nil {
+				v = viol(f.Sig, "%s\n history: %s\n responses: %v\n accepts: %v", f.Msg, historyString(s.Hist), obs.Resps, obs.Accepts)
+			}
+		}
+		if hv := binHealthQuick(in); hv != nil {
+			return hv
+		}
+		if v != nil {
+			v.Msg = fmt.Sprintf("sub-case %d: %s", i, v.Msg)
+			return v
+		}
+	}
+	return binHealth(in)
+}
+
+func TestC01_BIN(t *testing.T) {
+	runProp(t, "C01_BIN", genC01Bin,
+		func(c c01Bin) (bool, []string) {
+			nt := false
+			var cl []string
+			for _, s := range c.Batch {
+				n, k := classifyHist(s.Kind, c.Opts, s.Hist)
+				nt = nt || n
+				cl = append(cl, k...)
+			}
+			return nt, cl
+		}, runC01Bin)
 }
